@@ -54,12 +54,14 @@ PROPS = {
     "C16": dict(streams=[("C16", 1.0)], model=["M:basedir"], quick=30000, thorough=5000000),
     "C17": dict(streams=[("C17", 1.0)], model=["M:hasrtl", "M:dir", "M:pure"], quick=20000, thorough=3000000),
     "C18": dict(streams=[("C18", 1.0)], model=["M:charat", "M:iter", "M:deiter"], quick=30000, thorough=5000000),
-    "C19": dict(streams=[("C19", 1.0)], model=["M:level", "M:ver"], quick=127 + 256 + 2000, thorough=127 + 256 + 1000000, exhaustive=True),
+    "C19": dict(streams=[("C19", 1.0)], model=["M:level", "M:ver"], quick=127 + 256 + 3000, thorough=127 + 256 + 1000000, exhaustive=True),
     # every feature build is tied to the SAME Model (bidi + line operations through the driver), and the builds'
     # digests over identical generated texts are compared with each other
-    "C20": dict(streams=[("C20", 0.4), ("C01", 0.3), ("C06", 0.3)],
-                model=["M:levels", "M:classes", "M:paras", "M:rl", "M:rpc", "M:runs", "M:druns", "M:ro", "M:panic"],
-                quick=3000, thorough=150000, spec_extra=["S:C01", "S:C03", "S:C05", "S:C06"]),
+    # ... plus, per feature build, the exhaustive sweeps of the class table, the bracket table and Level (a feature
+    # may change a lookup path, e.g. a cache that exists only with std)
+    "C20": dict(streams=[("C20", 0.4), ("C01", 0.3), ("C06", 0.3), ("C14", 2), ("C15", 2), ("C19", 127 + 256)],
+                model=["M:levels", "M:classes", "M:paras", "M:rl", "M:rpc", "M:runs", "M:druns", "M:ro", "M:panic", "M:cls", "M:brk", "M:level", "M:ver"],
+                quick=3000, thorough=150000, spec_extra=["S:C01", "S:C03", "S:C05", "S:C06", "S:C14", "S:C15", "S:C19"]),
 }
 
 def _exh(alpha, maxlen):
@@ -371,8 +373,9 @@ def main():
             if os.path.exists(corpus):
                 procs.append((tag, "corpus") + run_pipeline(hb, stdin_file=corpus, out_prefix="%s-%s-corpus" % (prop, tag.replace("+", "_"))))
             for sname, share in cfg["streams"]:
-                cnt = max(1, int(total * share))
-                if cfg.get("exhaustive") and prop in ("C14", "C15"):
+                # a share above 1 is an absolute number of cases (the exhaustive table sweeps: 2 operations)
+                cnt = int(share) if share > 1 else max(1, int(total * share))
+                if sname in ("C14", "C15"):
                     shards = [(0, cnt)]
                 else:
                     per = (cnt + njobs - 1) // njobs
